@@ -354,12 +354,32 @@ def gen_sound(tier, seed, env_text):
                         cases.append({"type": "sound", "calls": h, "k": k, "rw": rw, "flag": fl})
         plan.append({"family": label, "cases": len(cases) - n0})
     q = tier == "quick"
-    # exhaustive: two calls of one function with every pair of small values (the f([]), f(None) shape)
-    sm = [v for v in small1 if len(json.dumps(v)) < 200][:30]
+    # exhaustive: two calls of one function with every pair of a curated pool that has every container kind both
+    # empty and non-empty (the f([]), f(None) shape; {} next to a populated defaultdict; ...)
+    A = lambda n: absmodel.T("atom", n)  # noqa: E731
+    Sx = lambda x: absmodel.T("str", x)  # noqa: E731
+    P = lambda k, v: absmodel.T("pair", "", [k, v])  # noqa: E731
+    C = lambda kind, *xs: absmodel.T(kind, "", list(xs))  # noqa: E731
+    curated = [A("int"), Sx("s"), A("NoneType"), A("mtfx.shapes.B"), A("bool"),
+               C("list"), C("list", A("int")), C("list", Sx("s")), C("set"), C("set", A("int")), C("tuple"), C("tuple", A("int")),
+               C("dict"), C("dict", P(Sx("a"), A("int"))), C("dict", P(A("int"), Sx("s"))), C("ddict"), C("ddict", P(Sx("a"), A("int"))),
+               C("list", C("list")), C("list", C("dict", P(Sx("a"), A("int")))), absmodel.T("genobj"), absmodel.T("func", "function"),
+               absmodel.T("classobj", "mtfx.shapes.A"), C("dict", P(Sx("a"), C("list"))), C("tuple", C("list"), A("int"))]
+    sm = curated
     pairs = list(itertools.combinations(sm, 2))
     add("2 calls x every pair of 30 small values, default chain and none (exhaustive pairs)",
-        [[mk_call("f1", [a], a), mk_call("f1", [b], b)] for a, b in (pairs if not q else rng.sample(pairs, 200))],
-        [0], ["DEFAULT", "NONE"], [""])
+        [[mk_call("f1", [a], a), mk_call("f1", [b], b)] for a, b in pairs],
+        [0, 3], ["DEFAULT", "REC"] if q else ["DEFAULT", "REC", "NONE", "RCD"], [""])
+    # calls that differ in ONE column only (same arguments and return, different yields; same yields, different return ...)
+    one_col = []
+    for a, b in itertools.combinations(curated[:8], 2):
+        one_col.append([{"f": "g0", "args": [A("int")], "ret": A("NoneType"), "ys": [a]},
+                        {"f": "g0", "args": [A("int")], "ret": A("NoneType"), "ys": [b]}])
+        one_col.append([{"f": "g0", "args": [A("int")], "ret": a, "ys": [A("int")]},
+                        {"f": "g0", "args": [A("int")], "ret": b, "ys": [A("int")]}])
+        one_col.append([{"f": "f0", "args": [A("int"), a], "ret": A("int"), "ys": []},
+                        {"f": "f0", "args": [A("int"), b], "ret": A("int"), "ys": []}])
+    add("two calls that differ in one stored column only (yield / return / one argument)", one_col, [0], ["NONE", "DEFAULT"], [""])
     add("every function kind x random values x every rewriter x k",
         [[mk_call(f, rng.sample(pool, 3), rng.choice(pool)) for _ in range(rng.randint(1, 3))]
          for f in FUNCS for _ in range(4 if q else 60)], [0, 3] if q else [0, 1, 2, 3, 10], RWS if not q else ["DEFAULT", "REC", "RLU2", "MSCB"], [""])
